@@ -97,6 +97,7 @@ def execute(spec, monitors, staged=None, check_values=True):
     for e in B.trace:
         h.update(repr(e).encode())
     res["digest"] = h.hexdigest()
+    res["trace"] = list(B.trace)  # (finalisers running after this point may still append to B.trace)
     return res
 
 
